@@ -67,3 +67,19 @@ package value
 //@       && (y < s.y.start <==> j == 0) && (y >= s.y.start+float64(s.y.bins-2)*s.y.size <==> j == s.y.bins-1) \
 //@       && (1 <= j && j <= s.y.bins-2 ==> s.y.start+float64(j-1)*s.y.size <= y && y < s.y.start+float64(j)*s.y.size) \
 //@       && (forall p in 0..len(s.bins) :: forall q in 0..s.y.bins :: (p != i || q != j) ==> s.bins[p][q] == old(s.bins[p][q]))
+
+// ---------------------------------------------------------------- the evaluation frame (S4; C09-C11 verify it, others use it)
+//
+// Anything that evaluates program values (ToString, Eval, ToSlice, iteration, closures) may write only: the
+// memo fields of lists (items, itemsPresent, iterable), value-stack storage, and objects it allocates itself.
+
+//@ interface-contract Value.ToString
+//@   assigns any List.items, any List.itemsPresent, any List.iterable, any funcGen.stackStorage[Value].data, any []Value
+//@ interface-contract Value.ToList
+//@   assigns nothing
+//@ interface-contract Value.ToMap
+//@   assigns nothing
+//@ interface-contract Value.ToFloat
+//@   assigns nothing
+//@ interface-contract Value.GetType
+//@   assigns nothing
